@@ -15,4 +15,4 @@ rsync -a --exclude target --exclude .git --exclude replays --exclude evidence "$
 sed -i "s#/repo#$MX/repo#g" "$MX/verif/check" "$MX/verif/tools/sensitivity.sh" "$MX/verif/tools/try_patch.sh" "$MX/verif/py/build_ext.sh" "$MX/verif/sim/Cargo.toml"
 fi
 git -C "$MX/repo" checkout -q -- . 2>/dev/null
-cd "$MX/verif" && tools/try_patch.sh "$d/patch.diff" "$@"
+cd "$MX/verif" && TRY_NO_REBUILD=1 tools/try_patch.sh "$d/patch.diff" "$@"
